@@ -379,7 +379,7 @@ fn c02_resend_rearms___V__() {
 }
 
 #[kani::proof]
-#[kani::unwind(3)]
+#[kani::unwind(6)]
 fn c02_tick_decision___V__() {
     // the retransmit decision of tick(): a deadline has triggered exactly when it is active and not
     // later than the clock; has_triggered_edge disarms the timer exactly then
@@ -404,6 +404,19 @@ fn c02_tick_decision___V__() {
 
 // ---------------------------------------------------------------------------------------------
 // C03: datagrams without the agreed token are inert (feed-level, parser stub per packet kind)
+
+/// Recording stand-in for OnlineState::ack_chunks in the feed-level harnesses: acknowledgement
+/// processing is the only way the `ack` field of a datagram acts on the endpoint, and what it does to
+/// the resend queue is decided by c01_ack_step; here only *whether* it runs matters (a resend queue
+/// with a real 2 KiB chunk in the pre-state made these harnesses exceed 10 GB).
+pub static mut VERIF_ACK_CALLS___V__: u32 = 0;
+impl OnlineState {
+    fn verif_ack_chunks_record___V__(&mut self, _ack: Sequence) {
+        unsafe {
+            VERIF_ACK_CALLS___V__ += 1;
+        }
+    }
+}
 
 fn snapshot_state___V__(c: &Connection) -> (u8, u16, u16, bool, u8, usize, u8, usize, usize, Timeout) {
     match c.state {
@@ -440,6 +453,8 @@ fn token_inert_online___V__(kind: u8) {
         assert!(cb.sends == 0);
         assert!(w.token_mismatch == 1);
         assert!(snapshot_state___V__(&c) == before);
+        // ... and its ack field is not processed either
+        assert!(unsafe { VERIF_ACK_CALLS___V__ } == 0);
         kani::cover!(true, "token mismatch path");
     } else {
         kani::cover!(true, "token match path");
@@ -452,6 +467,7 @@ fn token_inert_online___V__(kind: u8) {
 #[kani::stub(libtw2_huffman::Huffman::compress_impl_unsafe, libtw2_huffman::Huffman::verif_compress_oracle)]
 #[kani::stub(libtw2_huffman::Huffman::decompress_unsafe, libtw2_huffman::Huffman::verif_decompress_oracle)]
 #[kani::stub(protocol::Packet::read, protocol::Packet::verif_read_stub)]
+#[kani::stub(OnlineState::ack_chunks, OnlineState::verif_ack_chunks_record___V__)]
 fn c03_token_inert_online_keepalive___V__() {
     token_inert_online___V__(0);
 }
@@ -460,6 +476,7 @@ fn c03_token_inert_online_keepalive___V__() {
 #[kani::stub(libtw2_huffman::Huffman::compress_impl_unsafe, libtw2_huffman::Huffman::verif_compress_oracle)]
 #[kani::stub(libtw2_huffman::Huffman::decompress_unsafe, libtw2_huffman::Huffman::verif_decompress_oracle)]
 #[kani::stub(protocol::Packet::read, protocol::Packet::verif_read_stub)]
+#[kani::stub(OnlineState::ack_chunks, OnlineState::verif_ack_chunks_record___V__)]
 fn c03_token_inert_online_close___V__() {
     token_inert_online___V__(1);
 }
@@ -468,6 +485,7 @@ fn c03_token_inert_online_close___V__() {
 #[kani::stub(libtw2_huffman::Huffman::compress_impl_unsafe, libtw2_huffman::Huffman::verif_compress_oracle)]
 #[kani::stub(libtw2_huffman::Huffman::decompress_unsafe, libtw2_huffman::Huffman::verif_decompress_oracle)]
 #[kani::stub(protocol::Packet::read, protocol::Packet::verif_read_stub)]
+#[kani::stub(OnlineState::ack_chunks, OnlineState::verif_ack_chunks_record___V__)]
 fn c03_token_inert_online_chunks___V__() {
     token_inert_online___V__(2);
 }
@@ -476,6 +494,7 @@ fn c03_token_inert_online_chunks___V__() {
 #[kani::stub(libtw2_huffman::Huffman::compress_impl_unsafe, libtw2_huffman::Huffman::verif_compress_oracle)]
 #[kani::stub(libtw2_huffman::Huffman::decompress_unsafe, libtw2_huffman::Huffman::verif_decompress_oracle)]
 #[kani::stub(protocol::Packet::read, protocol::Packet::verif_read_stub)]
+#[kani::stub(OnlineState::ack_chunks, OnlineState::verif_ack_chunks_record___V__)]
 fn c03_token_inert_online_connect___V__() {
     token_inert_online___V__(3);
 }
@@ -588,3 +607,660 @@ fn c04_resend_packing___V__() {
     kani::cover!(online.packet.data.len() + 3 >= v_fit_limit());
     core::mem::forget(c);
 }
+
+// ---------------------------------------------------------------------------------------------
+// C01 / C03: one feed() from every connection state x every parsed packet kind (parser stand-in per
+// kind with symbolic token, ack, flags; codec oracle). Decides, per (state, kind):
+//  * C03: if the state has fixed a token and the datagram does not carry exactly it (modulo the one
+//    documented 0.7 exception), there is no event, no outgoing datagram, a TokenMismatch warning and the
+//    state summary (state kind, tokens, ack, sequence, queues, send timer) is unchanged;
+//  * C01: `Ready` is produced only by the transition Connecting -> Online on the peer's answer, so at
+//    most once per connection and never before the accepting side has answered; `Disconnect` only for
+//    a Close; every transition is one of the documented handshake edges.
+
+fn event_code___V__(rp: &ReceivePacket) -> u8 {
+    match rp.type_ {
+        ReceivePacketType::None => 0,
+        ReceivePacketType::Connless(_) => 1,
+        ReceivePacketType::Connected(_) => 2,
+        ReceivePacketType::Ready(_) => 3,
+        ReceivePacketType::Close(_) => 4,
+    }
+}
+
+fn feed_step___V__(state_kind: u8, pkt_kind: u8) {
+    protocol::Packet::verif_set_kind(pkt_kind);
+    let mut c = v_state(state_kind);
+    // variants of one state kind (0.6: 7 = Online without token)
+    let state_kind = v_state_kind(&c);
+    // representation invariant of the pre-state: the states that retransmit keep the send timer armed
+    // (established by connect/tick_action/new_accept_token, re-checked as post-condition below)
+    let send_active: bool = v_timer_state(state_kind);
+    c.send = if send_active { Timeout::active(Timestamp::from_usecs_since_epoch(kani::any::<u64>() >> 1)) } else { Timeout::inactive() };
+    let before = snapshot_state___V__(&c);
+    let before_tokens = v_tokens(&c);
+    let data: [u8; 3] = kani::any();
+    let mut scratch = [0u8; 16];
+    let mut cb = VCb::new(kani::any::<u64>() >> 2);
+    // the acceptor's token minting loop (Token::random) is the subject of c03_token_random: here the
+    // first draw is usable, so the loop runs once
+    kani::assume(v_token_ok(cb.rand[0]));
+    let mut w = VWarn { token_mismatch: 0, other: 0 };
+    let carried;
+    let ev;
+    {
+        let (rp, _res) = c.feed(&mut cb, &mut w, &data, &mut scratch[..]);
+        carried = protocol::Packet::verif_last_token();
+        ev = event_code___V__(&rp);
+    }
+    let after_kind = v_state_kind(&c);
+    let inert_expected = match v_required_token(state_kind, before_tokens, pkt_kind, carried) {
+        Some(t) => t != carried,
+        None => false,
+    };
+    if inert_expected {
+        assert!(ev == 0);
+        assert!(cb.sends == 0);
+        assert!(w.token_mismatch == 1);
+        assert!(after_kind == state_kind);
+        assert!(snapshot_state___V__(&c) == before);
+        assert!(v_tokens(&c) == before_tokens);
+        assert!(unsafe { VERIF_ACK_CALLS___V__ } == 0);
+        kani::cover!(true, "inert: token mismatch");
+    } else {
+        kani::cover!(true, "token accepted or no token fixed");
+    }
+    // C01: ready exactly on Connecting -> Online by the peer's answer
+    if ev == 3 {
+        assert!(state_kind == 1 && pkt_kind == v_ready_kind() && after_kind == 3);
+    }
+    if state_kind == 1 && after_kind == 3 {
+        assert!(ev == 3);
+    }
+    if ev == 4 {
+        assert!(pkt_kind == 1 && after_kind == 4);
+    }
+    if ev == 2 {
+        assert!(pkt_kind == 2 && after_kind == 3 && (state_kind == 3 || state_kind == 2));
+    }
+    assert!(ev != 1);
+    // every state change is a documented edge
+    assert!(after_kind == state_kind || v_edge(state_kind, pkt_kind, after_kind));
+    // nothing is ever sent from a closed / unconnected-and-staying-so endpoint
+    if after_kind == 0 || (after_kind == 4 && state_kind == 4) {
+        assert!(cb.sends == 0);
+    }
+    // C02: a live handshake / online state keeps its send timer armed
+    if v_timer_state(after_kind) {
+        assert!(c.send.is_active());
+    }
+    kani::cover!(after_kind != state_kind, "state changed");
+    core::mem::forget(c);
+}
+
+// ---------------------------------------------------------------------------------------------
+// C02: one tick() from a symbolic clock/deadline state. Invariant: the states that retransmit keep
+// the send timer armed (so needs_tick() is finite while anything is pending), and what is due is
+// acted upon.
+
+#[kani::proof]
+#[kani::unwind(8)]
+#[kani::stub(libtw2_huffman::Huffman::compress_impl_unsafe, libtw2_huffman::Huffman::verif_compress_oracle)]
+fn c02_tick_step_online___V__() {
+    let now: u64 = kani::any();
+    kani::assume(now < (1u64 << 62));
+    let send_dl: u64 = kani::any::<u64>() >> 1;
+    let chunk_dl: u64 = kani::any::<u64>() >> 1;
+    let mut c = v_connection(kani::any(), 1);
+    c.send = Timeout::active(Timestamp::from_usecs_since_epoch(send_dl));
+    {
+        let online = c.state.assert_online();
+        online.resend_queue = VecDeque::with_capacity(2);
+        let mut rc = resend_chunk___V__(1, 0x55);
+        rc.next_send = Timeout::active(Timestamp::from_usecs_since_epoch(chunk_dl));
+        online.resend_queue.push_front(rc);
+    }
+    let mut cb = VCb::new(now);
+    let r = c.tick(&mut cb);
+    assert!(r.is_ok());
+    // the send timer stays armed and the chunk keeps a retransmit deadline: the reported deadline is finite
+    assert!(c.send.is_active());
+    assert!(c.needs_tick().is_active());
+    let send_after = c.send;
+    let online = c.state.assert_online();
+    assert!(online.resend_queue.len() == 1);
+    assert!(online.resend_queue[0].next_send.is_active());
+    if chunk_dl <= now {
+        // retransmission due: the chunk is queued again (resend flag, own sequence), its deadline moves
+        // one second ahead, and the rebuilt packet goes out now or at the still pending send deadline
+        assert!(online.resend_queue[0].next_send == Timeout::active(Timestamp::from_usecs_since_epoch(now + 1_000_000)));
+        assert!(online.packet.num_chunks == 1 || cb.sends >= 1);
+        assert!(cb.sends >= 1 || send_after == Timeout::active(Timestamp::from_usecs_since_epoch(send_dl)));
+        kani::cover!(send_dl <= now, "both deadlines due on the same tick");
+    } else if send_dl <= now {
+        // keep-alive / flush due: exactly one datagram, timer re-armed 500 ms ahead
+        assert!(cb.sends == 1);
+        assert!(send_after == Timeout::active(Timestamp::from_usecs_since_epoch(now + 500_000)));
+        kani::cover!(true, "send deadline due");
+    } else {
+        assert!(cb.sends == 0);
+        assert!(send_after == Timeout::active(Timestamp::from_usecs_since_epoch(send_dl)));
+        kani::cover!(true, "nothing due");
+    }
+    core::mem::forget(c);
+}
+
+fn tick_step_handshake___V__(state_kind: u8) {
+    let now: u64 = kani::any();
+    kani::assume(now < (1u64 << 62));
+    let send_dl: u64 = kani::any::<u64>() >> 1;
+    let mut c = v_state(state_kind);
+    c.send = Timeout::active(Timestamp::from_usecs_since_epoch(send_dl));
+    let mut cb = VCb::new(now);
+    let r = c.tick(&mut cb);
+    assert!(r.is_ok());
+    assert!(v_state_kind(&c) == state_kind);
+    assert!(c.send.is_active() && c.needs_tick().is_active());
+    if send_dl <= now {
+        // the handshake message of this state is repeated, next repetition 500 ms ahead
+        assert!(cb.sends == 1);
+        assert!(c.send == Timeout::active(Timestamp::from_usecs_since_epoch(now + 500_000)));
+        kani::cover!(true, "handshake retransmission");
+    } else {
+        assert!(cb.sends == 0);
+        assert!(c.needs_tick() == Timeout::active(Timestamp::from_usecs_since_epoch(send_dl)));
+        kani::cover!(true, "not due");
+    }
+    core::mem::forget(c);
+}
+
+#[kani::proof]
+#[kani::unwind(8)]
+#[kani::stub(libtw2_huffman::Huffman::compress_impl_unsafe, libtw2_huffman::Huffman::verif_compress_oracle)]
+fn c02_tick_step_connecting___V__() {
+    tick_step_handshake___V__(1);
+}
+
+#[kani::proof]
+#[kani::unwind(8)]
+#[kani::stub(libtw2_huffman::Huffman::compress_impl_unsafe, libtw2_huffman::Huffman::verif_compress_oracle)]
+fn c02_tick_step_pending___V__() {
+    tick_step_handshake___V__(2);
+}
+
+// ---------------------------------------------------------------------------------------------
+// C04: disconnect() in every state that permits it (every state but Disconnected; Net::reject calls
+// it on a still unconnected connection): no panic, exactly one well-sized datagram, closed afterwards
+
+fn disconnect_step___V__(state_kind: u8) {
+    let mut c = v_state(state_kind);
+    if v_timer_state(state_kind) {
+        c.send = Timeout::active(Timestamp::from_usecs_since_epoch(kani::any::<u64>() >> 1));
+    }
+    let reason: [u8; 2] = kani::any();
+    // documented precondition (assert!): NUL-free reason
+    kani::assume(reason[0] != 0 && reason[1] != 0);
+    let mut cb = VCb::new(kani::any::<u64>() >> 2);
+    let r = c.disconnect(&mut cb, &reason);
+    assert!(r.is_ok());
+    assert!(cb.sends == 1);
+    assert!(cb.max_len <= MAX_PACKETSIZE);
+    assert!(v_state_kind(&c) == 4);
+    assert!(!c.needs_tick().is_active());
+    core::mem::forget(c);
+}
+
+#[kani::proof]
+#[kani::unwind(8)]
+#[kani::stub(libtw2_huffman::Huffman::compress_impl_unsafe, libtw2_huffman::Huffman::verif_compress_oracle)]
+fn c04_disconnect_step_unconnected___V__() {
+    disconnect_step___V__(0);
+}
+#[kani::proof]
+#[kani::unwind(8)]
+#[kani::stub(libtw2_huffman::Huffman::compress_impl_unsafe, libtw2_huffman::Huffman::verif_compress_oracle)]
+fn c04_disconnect_step_connecting___V__() {
+    disconnect_step___V__(1);
+}
+#[kani::proof]
+#[kani::unwind(8)]
+#[kani::stub(libtw2_huffman::Huffman::compress_impl_unsafe, libtw2_huffman::Huffman::verif_compress_oracle)]
+fn c04_disconnect_step_pending___V__() {
+    disconnect_step___V__(2);
+}
+#[kani::proof]
+#[kani::unwind(8)]
+#[kani::stub(libtw2_huffman::Huffman::compress_impl_unsafe, libtw2_huffman::Huffman::verif_compress_oracle)]
+fn c04_disconnect_step_online___V__() {
+    disconnect_step___V__(3);
+}
+
+// instances: feed_step(state, packet kind); 0.7-only states (5 Token, 6 PendingConnect) are generated
+// by harness/gen/gen_net_conn.py for the 07 instantiation only (marker below)
+#[kani::proof]
+#[kani::unwind(8)]
+#[kani::stub(libtw2_huffman::Huffman::compress_impl_unsafe, libtw2_huffman::Huffman::verif_compress_oracle)]
+#[kani::stub(libtw2_huffman::Huffman::decompress_unsafe, libtw2_huffman::Huffman::verif_decompress_oracle)]
+#[kani::stub(protocol::Packet::read, protocol::Packet::verif_read_stub)]
+#[kani::stub(OnlineState::ack_chunks, OnlineState::verif_ack_chunks_record___V__)]
+fn c01_feed_step_unconnected_keepalive___V__() {
+    feed_step___V__(0, 0);
+}
+#[kani::proof]
+#[kani::unwind(8)]
+#[kani::stub(libtw2_huffman::Huffman::compress_impl_unsafe, libtw2_huffman::Huffman::verif_compress_oracle)]
+#[kani::stub(libtw2_huffman::Huffman::decompress_unsafe, libtw2_huffman::Huffman::verif_decompress_oracle)]
+#[kani::stub(protocol::Packet::read, protocol::Packet::verif_read_stub)]
+#[kani::stub(OnlineState::ack_chunks, OnlineState::verif_ack_chunks_record___V__)]
+fn c01_feed_step_unconnected_close___V__() {
+    feed_step___V__(0, 1);
+}
+#[kani::proof]
+#[kani::unwind(8)]
+#[kani::stub(libtw2_huffman::Huffman::compress_impl_unsafe, libtw2_huffman::Huffman::verif_compress_oracle)]
+#[kani::stub(libtw2_huffman::Huffman::decompress_unsafe, libtw2_huffman::Huffman::verif_decompress_oracle)]
+#[kani::stub(protocol::Packet::read, protocol::Packet::verif_read_stub)]
+#[kani::stub(OnlineState::ack_chunks, OnlineState::verif_ack_chunks_record___V__)]
+fn c01_feed_step_unconnected_chunks___V__() {
+    feed_step___V__(0, 2);
+}
+#[kani::proof]
+#[kani::unwind(8)]
+#[kani::stub(libtw2_huffman::Huffman::compress_impl_unsafe, libtw2_huffman::Huffman::verif_compress_oracle)]
+#[kani::stub(libtw2_huffman::Huffman::decompress_unsafe, libtw2_huffman::Huffman::verif_decompress_oracle)]
+#[kani::stub(protocol::Packet::read, protocol::Packet::verif_read_stub)]
+#[kani::stub(OnlineState::ack_chunks, OnlineState::verif_ack_chunks_record___V__)]
+fn c01_feed_step_unconnected_connect___V__() {
+    feed_step___V__(0, 3);
+}
+#[kani::proof]
+#[kani::unwind(8)]
+#[kani::stub(libtw2_huffman::Huffman::compress_impl_unsafe, libtw2_huffman::Huffman::verif_compress_oracle)]
+#[kani::stub(libtw2_huffman::Huffman::decompress_unsafe, libtw2_huffman::Huffman::verif_decompress_oracle)]
+#[kani::stub(protocol::Packet::read, protocol::Packet::verif_read_stub)]
+#[kani::stub(OnlineState::ack_chunks, OnlineState::verif_ack_chunks_record___V__)]
+fn c01_feed_step_unconnected_k4___V__() {
+    feed_step___V__(0, 4);
+}
+#[kani::proof]
+#[kani::unwind(8)]
+#[kani::stub(libtw2_huffman::Huffman::compress_impl_unsafe, libtw2_huffman::Huffman::verif_compress_oracle)]
+#[kani::stub(libtw2_huffman::Huffman::decompress_unsafe, libtw2_huffman::Huffman::verif_decompress_oracle)]
+#[kani::stub(protocol::Packet::read, protocol::Packet::verif_read_stub)]
+#[kani::stub(OnlineState::ack_chunks, OnlineState::verif_ack_chunks_record___V__)]
+fn c01_feed_step_unconnected_k5___V__() {
+    feed_step___V__(0, 5);
+}
+#[kani::proof]
+#[kani::unwind(8)]
+#[kani::stub(libtw2_huffman::Huffman::compress_impl_unsafe, libtw2_huffman::Huffman::verif_compress_oracle)]
+#[kani::stub(libtw2_huffman::Huffman::decompress_unsafe, libtw2_huffman::Huffman::verif_decompress_oracle)]
+#[kani::stub(protocol::Packet::read, protocol::Packet::verif_read_stub)]
+#[kani::stub(OnlineState::ack_chunks, OnlineState::verif_ack_chunks_record___V__)]
+fn c01_feed_step_connecting_keepalive___V__() {
+    feed_step___V__(1, 0);
+}
+#[kani::proof]
+#[kani::unwind(8)]
+#[kani::stub(libtw2_huffman::Huffman::compress_impl_unsafe, libtw2_huffman::Huffman::verif_compress_oracle)]
+#[kani::stub(libtw2_huffman::Huffman::decompress_unsafe, libtw2_huffman::Huffman::verif_decompress_oracle)]
+#[kani::stub(protocol::Packet::read, protocol::Packet::verif_read_stub)]
+#[kani::stub(OnlineState::ack_chunks, OnlineState::verif_ack_chunks_record___V__)]
+fn c01_feed_step_connecting_close___V__() {
+    feed_step___V__(1, 1);
+}
+#[kani::proof]
+#[kani::unwind(8)]
+#[kani::stub(libtw2_huffman::Huffman::compress_impl_unsafe, libtw2_huffman::Huffman::verif_compress_oracle)]
+#[kani::stub(libtw2_huffman::Huffman::decompress_unsafe, libtw2_huffman::Huffman::verif_decompress_oracle)]
+#[kani::stub(protocol::Packet::read, protocol::Packet::verif_read_stub)]
+#[kani::stub(OnlineState::ack_chunks, OnlineState::verif_ack_chunks_record___V__)]
+fn c01_feed_step_connecting_chunks___V__() {
+    feed_step___V__(1, 2);
+}
+#[kani::proof]
+#[kani::unwind(8)]
+#[kani::stub(libtw2_huffman::Huffman::compress_impl_unsafe, libtw2_huffman::Huffman::verif_compress_oracle)]
+#[kani::stub(libtw2_huffman::Huffman::decompress_unsafe, libtw2_huffman::Huffman::verif_decompress_oracle)]
+#[kani::stub(protocol::Packet::read, protocol::Packet::verif_read_stub)]
+#[kani::stub(OnlineState::ack_chunks, OnlineState::verif_ack_chunks_record___V__)]
+fn c01_feed_step_connecting_connect___V__() {
+    feed_step___V__(1, 3);
+}
+#[kani::proof]
+#[kani::unwind(8)]
+#[kani::stub(libtw2_huffman::Huffman::compress_impl_unsafe, libtw2_huffman::Huffman::verif_compress_oracle)]
+#[kani::stub(libtw2_huffman::Huffman::decompress_unsafe, libtw2_huffman::Huffman::verif_decompress_oracle)]
+#[kani::stub(protocol::Packet::read, protocol::Packet::verif_read_stub)]
+#[kani::stub(OnlineState::ack_chunks, OnlineState::verif_ack_chunks_record___V__)]
+fn c01_feed_step_connecting_k4___V__() {
+    feed_step___V__(1, 4);
+}
+#[kani::proof]
+#[kani::unwind(8)]
+#[kani::stub(libtw2_huffman::Huffman::compress_impl_unsafe, libtw2_huffman::Huffman::verif_compress_oracle)]
+#[kani::stub(libtw2_huffman::Huffman::decompress_unsafe, libtw2_huffman::Huffman::verif_decompress_oracle)]
+#[kani::stub(protocol::Packet::read, protocol::Packet::verif_read_stub)]
+#[kani::stub(OnlineState::ack_chunks, OnlineState::verif_ack_chunks_record___V__)]
+fn c01_feed_step_connecting_k5___V__() {
+    feed_step___V__(1, 5);
+}
+#[kani::proof]
+#[kani::unwind(8)]
+#[kani::stub(libtw2_huffman::Huffman::compress_impl_unsafe, libtw2_huffman::Huffman::verif_compress_oracle)]
+#[kani::stub(libtw2_huffman::Huffman::decompress_unsafe, libtw2_huffman::Huffman::verif_decompress_oracle)]
+#[kani::stub(protocol::Packet::read, protocol::Packet::verif_read_stub)]
+#[kani::stub(OnlineState::ack_chunks, OnlineState::verif_ack_chunks_record___V__)]
+fn c01_feed_step_pending_keepalive___V__() {
+    feed_step___V__(2, 0);
+}
+#[kani::proof]
+#[kani::unwind(8)]
+#[kani::stub(libtw2_huffman::Huffman::compress_impl_unsafe, libtw2_huffman::Huffman::verif_compress_oracle)]
+#[kani::stub(libtw2_huffman::Huffman::decompress_unsafe, libtw2_huffman::Huffman::verif_decompress_oracle)]
+#[kani::stub(protocol::Packet::read, protocol::Packet::verif_read_stub)]
+#[kani::stub(OnlineState::ack_chunks, OnlineState::verif_ack_chunks_record___V__)]
+fn c01_feed_step_pending_close___V__() {
+    feed_step___V__(2, 1);
+}
+#[kani::proof]
+#[kani::unwind(8)]
+#[kani::stub(libtw2_huffman::Huffman::compress_impl_unsafe, libtw2_huffman::Huffman::verif_compress_oracle)]
+#[kani::stub(libtw2_huffman::Huffman::decompress_unsafe, libtw2_huffman::Huffman::verif_decompress_oracle)]
+#[kani::stub(protocol::Packet::read, protocol::Packet::verif_read_stub)]
+#[kani::stub(OnlineState::ack_chunks, OnlineState::verif_ack_chunks_record___V__)]
+fn c01_feed_step_pending_chunks___V__() {
+    feed_step___V__(2, 2);
+}
+#[kani::proof]
+#[kani::unwind(8)]
+#[kani::stub(libtw2_huffman::Huffman::compress_impl_unsafe, libtw2_huffman::Huffman::verif_compress_oracle)]
+#[kani::stub(libtw2_huffman::Huffman::decompress_unsafe, libtw2_huffman::Huffman::verif_decompress_oracle)]
+#[kani::stub(protocol::Packet::read, protocol::Packet::verif_read_stub)]
+#[kani::stub(OnlineState::ack_chunks, OnlineState::verif_ack_chunks_record___V__)]
+fn c01_feed_step_pending_connect___V__() {
+    feed_step___V__(2, 3);
+}
+#[kani::proof]
+#[kani::unwind(8)]
+#[kani::stub(libtw2_huffman::Huffman::compress_impl_unsafe, libtw2_huffman::Huffman::verif_compress_oracle)]
+#[kani::stub(libtw2_huffman::Huffman::decompress_unsafe, libtw2_huffman::Huffman::verif_decompress_oracle)]
+#[kani::stub(protocol::Packet::read, protocol::Packet::verif_read_stub)]
+#[kani::stub(OnlineState::ack_chunks, OnlineState::verif_ack_chunks_record___V__)]
+fn c01_feed_step_pending_k4___V__() {
+    feed_step___V__(2, 4);
+}
+#[kani::proof]
+#[kani::unwind(8)]
+#[kani::stub(libtw2_huffman::Huffman::compress_impl_unsafe, libtw2_huffman::Huffman::verif_compress_oracle)]
+#[kani::stub(libtw2_huffman::Huffman::decompress_unsafe, libtw2_huffman::Huffman::verif_decompress_oracle)]
+#[kani::stub(protocol::Packet::read, protocol::Packet::verif_read_stub)]
+#[kani::stub(OnlineState::ack_chunks, OnlineState::verif_ack_chunks_record___V__)]
+fn c01_feed_step_pending_k5___V__() {
+    feed_step___V__(2, 5);
+}
+#[kani::proof]
+#[kani::unwind(8)]
+#[kani::stub(libtw2_huffman::Huffman::compress_impl_unsafe, libtw2_huffman::Huffman::verif_compress_oracle)]
+#[kani::stub(libtw2_huffman::Huffman::decompress_unsafe, libtw2_huffman::Huffman::verif_decompress_oracle)]
+#[kani::stub(protocol::Packet::read, protocol::Packet::verif_read_stub)]
+#[kani::stub(OnlineState::ack_chunks, OnlineState::verif_ack_chunks_record___V__)]
+fn c01_feed_step_online_keepalive___V__() {
+    feed_step___V__(3, 0);
+}
+#[kani::proof]
+#[kani::unwind(8)]
+#[kani::stub(libtw2_huffman::Huffman::compress_impl_unsafe, libtw2_huffman::Huffman::verif_compress_oracle)]
+#[kani::stub(libtw2_huffman::Huffman::decompress_unsafe, libtw2_huffman::Huffman::verif_decompress_oracle)]
+#[kani::stub(protocol::Packet::read, protocol::Packet::verif_read_stub)]
+#[kani::stub(OnlineState::ack_chunks, OnlineState::verif_ack_chunks_record___V__)]
+fn c01_feed_step_online_close___V__() {
+    feed_step___V__(3, 1);
+}
+#[kani::proof]
+#[kani::unwind(8)]
+#[kani::stub(libtw2_huffman::Huffman::compress_impl_unsafe, libtw2_huffman::Huffman::verif_compress_oracle)]
+#[kani::stub(libtw2_huffman::Huffman::decompress_unsafe, libtw2_huffman::Huffman::verif_decompress_oracle)]
+#[kani::stub(protocol::Packet::read, protocol::Packet::verif_read_stub)]
+#[kani::stub(OnlineState::ack_chunks, OnlineState::verif_ack_chunks_record___V__)]
+fn c01_feed_step_online_chunks___V__() {
+    feed_step___V__(3, 2);
+}
+#[kani::proof]
+#[kani::unwind(8)]
+#[kani::stub(libtw2_huffman::Huffman::compress_impl_unsafe, libtw2_huffman::Huffman::verif_compress_oracle)]
+#[kani::stub(libtw2_huffman::Huffman::decompress_unsafe, libtw2_huffman::Huffman::verif_decompress_oracle)]
+#[kani::stub(protocol::Packet::read, protocol::Packet::verif_read_stub)]
+#[kani::stub(OnlineState::ack_chunks, OnlineState::verif_ack_chunks_record___V__)]
+fn c01_feed_step_online_connect___V__() {
+    feed_step___V__(3, 3);
+}
+#[kani::proof]
+#[kani::unwind(8)]
+#[kani::stub(libtw2_huffman::Huffman::compress_impl_unsafe, libtw2_huffman::Huffman::verif_compress_oracle)]
+#[kani::stub(libtw2_huffman::Huffman::decompress_unsafe, libtw2_huffman::Huffman::verif_decompress_oracle)]
+#[kani::stub(protocol::Packet::read, protocol::Packet::verif_read_stub)]
+#[kani::stub(OnlineState::ack_chunks, OnlineState::verif_ack_chunks_record___V__)]
+fn c01_feed_step_online_k4___V__() {
+    feed_step___V__(3, 4);
+}
+#[kani::proof]
+#[kani::unwind(8)]
+#[kani::stub(libtw2_huffman::Huffman::compress_impl_unsafe, libtw2_huffman::Huffman::verif_compress_oracle)]
+#[kani::stub(libtw2_huffman::Huffman::decompress_unsafe, libtw2_huffman::Huffman::verif_decompress_oracle)]
+#[kani::stub(protocol::Packet::read, protocol::Packet::verif_read_stub)]
+#[kani::stub(OnlineState::ack_chunks, OnlineState::verif_ack_chunks_record___V__)]
+fn c01_feed_step_online_k5___V__() {
+    feed_step___V__(3, 5);
+}
+#[kani::proof]
+#[kani::unwind(8)]
+#[kani::stub(libtw2_huffman::Huffman::compress_impl_unsafe, libtw2_huffman::Huffman::verif_compress_oracle)]
+#[kani::stub(libtw2_huffman::Huffman::decompress_unsafe, libtw2_huffman::Huffman::verif_decompress_oracle)]
+#[kani::stub(protocol::Packet::read, protocol::Packet::verif_read_stub)]
+#[kani::stub(OnlineState::ack_chunks, OnlineState::verif_ack_chunks_record___V__)]
+fn c01_feed_step_disconnected_keepalive___V__() {
+    feed_step___V__(4, 0);
+}
+#[kani::proof]
+#[kani::unwind(8)]
+#[kani::stub(libtw2_huffman::Huffman::compress_impl_unsafe, libtw2_huffman::Huffman::verif_compress_oracle)]
+#[kani::stub(libtw2_huffman::Huffman::decompress_unsafe, libtw2_huffman::Huffman::verif_decompress_oracle)]
+#[kani::stub(protocol::Packet::read, protocol::Packet::verif_read_stub)]
+#[kani::stub(OnlineState::ack_chunks, OnlineState::verif_ack_chunks_record___V__)]
+fn c01_feed_step_disconnected_close___V__() {
+    feed_step___V__(4, 1);
+}
+#[kani::proof]
+#[kani::unwind(8)]
+#[kani::stub(libtw2_huffman::Huffman::compress_impl_unsafe, libtw2_huffman::Huffman::verif_compress_oracle)]
+#[kani::stub(libtw2_huffman::Huffman::decompress_unsafe, libtw2_huffman::Huffman::verif_decompress_oracle)]
+#[kani::stub(protocol::Packet::read, protocol::Packet::verif_read_stub)]
+#[kani::stub(OnlineState::ack_chunks, OnlineState::verif_ack_chunks_record___V__)]
+fn c01_feed_step_disconnected_chunks___V__() {
+    feed_step___V__(4, 2);
+}
+#[kani::proof]
+#[kani::unwind(8)]
+#[kani::stub(libtw2_huffman::Huffman::compress_impl_unsafe, libtw2_huffman::Huffman::verif_compress_oracle)]
+#[kani::stub(libtw2_huffman::Huffman::decompress_unsafe, libtw2_huffman::Huffman::verif_decompress_oracle)]
+#[kani::stub(protocol::Packet::read, protocol::Packet::verif_read_stub)]
+#[kani::stub(OnlineState::ack_chunks, OnlineState::verif_ack_chunks_record___V__)]
+fn c01_feed_step_disconnected_connect___V__() {
+    feed_step___V__(4, 3);
+}
+#[kani::proof]
+#[kani::unwind(8)]
+#[kani::stub(libtw2_huffman::Huffman::compress_impl_unsafe, libtw2_huffman::Huffman::verif_compress_oracle)]
+#[kani::stub(libtw2_huffman::Huffman::decompress_unsafe, libtw2_huffman::Huffman::verif_decompress_oracle)]
+#[kani::stub(protocol::Packet::read, protocol::Packet::verif_read_stub)]
+#[kani::stub(OnlineState::ack_chunks, OnlineState::verif_ack_chunks_record___V__)]
+fn c01_feed_step_disconnected_k4___V__() {
+    feed_step___V__(4, 4);
+}
+#[kani::proof]
+#[kani::unwind(8)]
+#[kani::stub(libtw2_huffman::Huffman::compress_impl_unsafe, libtw2_huffman::Huffman::verif_compress_oracle)]
+#[kani::stub(libtw2_huffman::Huffman::decompress_unsafe, libtw2_huffman::Huffman::verif_decompress_oracle)]
+#[kani::stub(protocol::Packet::read, protocol::Packet::verif_read_stub)]
+#[kani::stub(OnlineState::ack_chunks, OnlineState::verif_ack_chunks_record___V__)]
+fn c01_feed_step_disconnected_k5___V__() {
+    feed_step___V__(4, 5);
+}
+// __ONLY06_BEGIN__
+#[kani::proof]
+#[kani::unwind(8)]
+#[kani::stub(libtw2_huffman::Huffman::compress_impl_unsafe, libtw2_huffman::Huffman::verif_compress_oracle)]
+#[kani::stub(libtw2_huffman::Huffman::decompress_unsafe, libtw2_huffman::Huffman::verif_decompress_oracle)]
+#[kani::stub(protocol::Packet::read, protocol::Packet::verif_read_stub)]
+#[kani::stub(OnlineState::ack_chunks, OnlineState::verif_ack_chunks_record___V__)]
+fn c01_feed_step_onlinenotoken_close___V__() {
+    feed_step___V__(7, 1);
+}
+#[kani::proof]
+#[kani::unwind(8)]
+#[kani::stub(libtw2_huffman::Huffman::compress_impl_unsafe, libtw2_huffman::Huffman::verif_compress_oracle)]
+#[kani::stub(libtw2_huffman::Huffman::decompress_unsafe, libtw2_huffman::Huffman::verif_decompress_oracle)]
+#[kani::stub(protocol::Packet::read, protocol::Packet::verif_read_stub)]
+#[kani::stub(OnlineState::ack_chunks, OnlineState::verif_ack_chunks_record___V__)]
+fn c01_feed_step_onlinenotoken_chunks___V__() {
+    feed_step___V__(7, 2);
+}
+#[kani::proof]
+#[kani::unwind(8)]
+#[kani::stub(libtw2_huffman::Huffman::compress_impl_unsafe, libtw2_huffman::Huffman::verif_compress_oracle)]
+#[kani::stub(libtw2_huffman::Huffman::decompress_unsafe, libtw2_huffman::Huffman::verif_decompress_oracle)]
+#[kani::stub(protocol::Packet::read, protocol::Packet::verif_read_stub)]
+#[kani::stub(OnlineState::ack_chunks, OnlineState::verif_ack_chunks_record___V__)]
+fn c01_feed_step_onlinenotoken_k4___V__() {
+    feed_step___V__(7, 4);
+}
+// __ONLY06_END__
+// __ONLY07_BEGIN__
+#[kani::proof]
+#[kani::unwind(8)]
+#[kani::stub(libtw2_huffman::Huffman::compress_impl_unsafe, libtw2_huffman::Huffman::verif_compress_oracle)]
+fn c04_disconnect_step_tokenwait___V__() {
+    disconnect_step___V__(5);
+}
+#[kani::proof]
+#[kani::unwind(8)]
+#[kani::stub(libtw2_huffman::Huffman::compress_impl_unsafe, libtw2_huffman::Huffman::verif_compress_oracle)]
+fn c04_disconnect_step_pendingconnect___V__() {
+    disconnect_step___V__(6);
+}
+#[kani::proof]
+#[kani::unwind(8)]
+#[kani::stub(libtw2_huffman::Huffman::compress_impl_unsafe, libtw2_huffman::Huffman::verif_compress_oracle)]
+fn c02_tick_step_tokenwait___V__() {
+    tick_step_handshake___V__(5);
+}
+#[kani::proof]
+#[kani::unwind(8)]
+#[kani::stub(libtw2_huffman::Huffman::compress_impl_unsafe, libtw2_huffman::Huffman::verif_compress_oracle)]
+#[kani::stub(libtw2_huffman::Huffman::decompress_unsafe, libtw2_huffman::Huffman::verif_decompress_oracle)]
+#[kani::stub(protocol::Packet::read, protocol::Packet::verif_read_stub)]
+#[kani::stub(OnlineState::ack_chunks, OnlineState::verif_ack_chunks_record___V__)]
+fn c01_feed_step_tokenwait_keepalive___V__() {
+    feed_step___V__(5, 0);
+}
+#[kani::proof]
+#[kani::unwind(8)]
+#[kani::stub(libtw2_huffman::Huffman::compress_impl_unsafe, libtw2_huffman::Huffman::verif_compress_oracle)]
+#[kani::stub(libtw2_huffman::Huffman::decompress_unsafe, libtw2_huffman::Huffman::verif_decompress_oracle)]
+#[kani::stub(protocol::Packet::read, protocol::Packet::verif_read_stub)]
+#[kani::stub(OnlineState::ack_chunks, OnlineState::verif_ack_chunks_record___V__)]
+fn c01_feed_step_tokenwait_close___V__() {
+    feed_step___V__(5, 1);
+}
+#[kani::proof]
+#[kani::unwind(8)]
+#[kani::stub(libtw2_huffman::Huffman::compress_impl_unsafe, libtw2_huffman::Huffman::verif_compress_oracle)]
+#[kani::stub(libtw2_huffman::Huffman::decompress_unsafe, libtw2_huffman::Huffman::verif_decompress_oracle)]
+#[kani::stub(protocol::Packet::read, protocol::Packet::verif_read_stub)]
+#[kani::stub(OnlineState::ack_chunks, OnlineState::verif_ack_chunks_record___V__)]
+fn c01_feed_step_tokenwait_chunks___V__() {
+    feed_step___V__(5, 2);
+}
+#[kani::proof]
+#[kani::unwind(8)]
+#[kani::stub(libtw2_huffman::Huffman::compress_impl_unsafe, libtw2_huffman::Huffman::verif_compress_oracle)]
+#[kani::stub(libtw2_huffman::Huffman::decompress_unsafe, libtw2_huffman::Huffman::verif_decompress_oracle)]
+#[kani::stub(protocol::Packet::read, protocol::Packet::verif_read_stub)]
+#[kani::stub(OnlineState::ack_chunks, OnlineState::verif_ack_chunks_record___V__)]
+fn c01_feed_step_tokenwait_connect___V__() {
+    feed_step___V__(5, 3);
+}
+#[kani::proof]
+#[kani::unwind(8)]
+#[kani::stub(libtw2_huffman::Huffman::compress_impl_unsafe, libtw2_huffman::Huffman::verif_compress_oracle)]
+#[kani::stub(libtw2_huffman::Huffman::decompress_unsafe, libtw2_huffman::Huffman::verif_decompress_oracle)]
+#[kani::stub(protocol::Packet::read, protocol::Packet::verif_read_stub)]
+#[kani::stub(OnlineState::ack_chunks, OnlineState::verif_ack_chunks_record___V__)]
+fn c01_feed_step_tokenwait_k4___V__() {
+    feed_step___V__(5, 4);
+}
+#[kani::proof]
+#[kani::unwind(8)]
+#[kani::stub(libtw2_huffman::Huffman::compress_impl_unsafe, libtw2_huffman::Huffman::verif_compress_oracle)]
+#[kani::stub(libtw2_huffman::Huffman::decompress_unsafe, libtw2_huffman::Huffman::verif_decompress_oracle)]
+#[kani::stub(protocol::Packet::read, protocol::Packet::verif_read_stub)]
+#[kani::stub(OnlineState::ack_chunks, OnlineState::verif_ack_chunks_record___V__)]
+fn c01_feed_step_tokenwait_k5___V__() {
+    feed_step___V__(5, 5);
+}
+#[kani::proof]
+#[kani::unwind(8)]
+#[kani::stub(libtw2_huffman::Huffman::compress_impl_unsafe, libtw2_huffman::Huffman::verif_compress_oracle)]
+#[kani::stub(libtw2_huffman::Huffman::decompress_unsafe, libtw2_huffman::Huffman::verif_decompress_oracle)]
+#[kani::stub(protocol::Packet::read, protocol::Packet::verif_read_stub)]
+#[kani::stub(OnlineState::ack_chunks, OnlineState::verif_ack_chunks_record___V__)]
+fn c01_feed_step_pendingconnect_keepalive___V__() {
+    feed_step___V__(6, 0);
+}
+#[kani::proof]
+#[kani::unwind(8)]
+#[kani::stub(libtw2_huffman::Huffman::compress_impl_unsafe, libtw2_huffman::Huffman::verif_compress_oracle)]
+#[kani::stub(libtw2_huffman::Huffman::decompress_unsafe, libtw2_huffman::Huffman::verif_decompress_oracle)]
+#[kani::stub(protocol::Packet::read, protocol::Packet::verif_read_stub)]
+#[kani::stub(OnlineState::ack_chunks, OnlineState::verif_ack_chunks_record___V__)]
+fn c01_feed_step_pendingconnect_close___V__() {
+    feed_step___V__(6, 1);
+}
+#[kani::proof]
+#[kani::unwind(8)]
+#[kani::stub(libtw2_huffman::Huffman::compress_impl_unsafe, libtw2_huffman::Huffman::verif_compress_oracle)]
+#[kani::stub(libtw2_huffman::Huffman::decompress_unsafe, libtw2_huffman::Huffman::verif_decompress_oracle)]
+#[kani::stub(protocol::Packet::read, protocol::Packet::verif_read_stub)]
+#[kani::stub(OnlineState::ack_chunks, OnlineState::verif_ack_chunks_record___V__)]
+fn c01_feed_step_pendingconnect_chunks___V__() {
+    feed_step___V__(6, 2);
+}
+#[kani::proof]
+#[kani::unwind(8)]
+#[kani::stub(libtw2_huffman::Huffman::compress_impl_unsafe, libtw2_huffman::Huffman::verif_compress_oracle)]
+#[kani::stub(libtw2_huffman::Huffman::decompress_unsafe, libtw2_huffman::Huffman::verif_decompress_oracle)]
+#[kani::stub(protocol::Packet::read, protocol::Packet::verif_read_stub)]
+#[kani::stub(OnlineState::ack_chunks, OnlineState::verif_ack_chunks_record___V__)]
+fn c01_feed_step_pendingconnect_connect___V__() {
+    feed_step___V__(6, 3);
+}
+#[kani::proof]
+#[kani::unwind(8)]
+#[kani::stub(libtw2_huffman::Huffman::compress_impl_unsafe, libtw2_huffman::Huffman::verif_compress_oracle)]
+#[kani::stub(libtw2_huffman::Huffman::decompress_unsafe, libtw2_huffman::Huffman::verif_decompress_oracle)]
+#[kani::stub(protocol::Packet::read, protocol::Packet::verif_read_stub)]
+#[kani::stub(OnlineState::ack_chunks, OnlineState::verif_ack_chunks_record___V__)]
+fn c01_feed_step_pendingconnect_k4___V__() {
+    feed_step___V__(6, 4);
+}
+#[kani::proof]
+#[kani::unwind(8)]
+#[kani::stub(libtw2_huffman::Huffman::compress_impl_unsafe, libtw2_huffman::Huffman::verif_compress_oracle)]
+#[kani::stub(libtw2_huffman::Huffman::decompress_unsafe, libtw2_huffman::Huffman::verif_decompress_oracle)]
+#[kani::stub(protocol::Packet::read, protocol::Packet::verif_read_stub)]
+#[kani::stub(OnlineState::ack_chunks, OnlineState::verif_ack_chunks_record___V__)]
+fn c01_feed_step_pendingconnect_k5___V__() {
+    feed_step___V__(6, 5);
+}
+// __ONLY07_END__
